@@ -206,8 +206,21 @@ impl V {
     pub fn to_plain_json(&self) -> Option<J> {
         Some(match self {
             V::Int(i) => J::from(*i),
-            V::Uint(u) => J::from(*u),
-            V::Dbl(f) => J::from(*f),
+            // rscel reads a JSON number as int when it fits: only larger uints survive the trip
+            V::Uint(u) => {
+                if *u > i64::MAX as u64 {
+                    J::from(*u)
+                } else {
+                    return None;
+                }
+            }
+            V::Dbl(f) => {
+                if f.is_finite() {
+                    J::from(*f)
+                } else {
+                    return None;
+                }
+            }
             V::Bool(b) => J::from(*b),
             V::Str(s) => J::from(s.clone()),
             V::List(l) => J::Array(l.iter().map(|x| x.to_plain_json()).collect::<Option<Vec<_>>>()?),
